@@ -107,7 +107,11 @@ def fn_correspondence(chk, model, drv, xvc):
                 ra = a if not cwd else ([pre] if a is None else [pre + t for t in a])
                 blines.append("disk %s - %s" % (rootabs, tg(ra)))
             else:
-                blines.append("xpath %s - %s" % (rootabs, hx(pre + a)) if a else "xpath %s %s %s" % (rootabs, hx(cwd), hx(a)))
+                # the corresponding root-relative string, normalised where it stays inside the repository
+                na = os.path.normpath(pre + a) if a else a
+                if a and (na.startswith("..") or na == "."):
+                    na = pre + a
+                blines.append("xpath %s - %s" % (rootabs, hx(na)) if a else "xpath %s %s %s" % (rootabs, hx(cwd), hx(a)))
         rc3, bout = C.run_lines(drv, blines, env=env, timeout=600)
     finally:
         rp.cleanup()
@@ -224,7 +228,10 @@ def run_variant(xvc, sc, variant):
         ts, dest = list(sc["targets"]), sc["dest"]
         if variant == "root":
             ts = [pre + x for x in ts] if ts else ([pre] if pre and sc["kind"] in ("track", "carry-in", "recheck", "list") else [])
-            dest = pre + dest if dest else None
+            # the corresponding root-relative destination is the NORMALISED path ("../o/" in d/e is "d/o/"):
+            # XvcPath::new resolves "." and ".." (targets are glob strings and are rebased textually)
+            if dest:
+                dest = os.path.normpath(pre + dest) + ("/" if dest.endswith("/") else "")
             head, cwd = ["--skip-git"], rp.root
         elif variant == "sub":
             head, cwd = ["--skip-git"], rp.path(sc["cwd"]) if sc["cwd"] else rp.root
@@ -257,6 +264,10 @@ def run_variant(xvc, sc, variant):
 
 def diff_two(a, b):
     out = []
+    # a command that fails in both places is not compared further: how far a failing command got before
+    # the error (it visits hash maps) is not a matter of the directory it runs in
+    if a["oc"] != "Ok" and b["oc"] != "Ok":
+        return out
     if a["oc"] != b["oc"]:
         out.append("outcome %s vs %s" % (a["oc"], b["oc"]))
     for sec in ("ws", "objs", "recs", "gitignore"):
